@@ -46,3 +46,25 @@ META["C17"] = dict(
     text="Theorems C17_aggregate, C17_monotone_counts, C17_min_mean_max: for every sequence of positive durations per outcome with snapshots/totals anywhere, each snapshot's lifetime figures are (integer mean, count, min, max) of all durations recorded so far and its period figures those since the previous snapshot; counts never decrease; min <= mean <= max. The position of the clock reads around the body (C17_measured_interval) is proved on the life-cycle model of C06.",
     note="Trusted: Coq kernel; extraction + driver; harness. Sequential use only (the concurrent counting part is C01). Wall-clock magnitudes are the runtime's nanotime, observed one-sidedly.",
 )
+
+META["C06"] = dict(
+    design_ref="DESIGN.md section 5, C06",
+    technique="Coq proofs by structural induction over action lists of an executable model of T/CheckResults/teardown/ActiveScenario/Run.Do for every scenario program (any registrations, failures, panics in setup, bodies and cleanups); exact event-log differential against the real ActiveScenario and whole Run.Do runs",
+    text="Theorems C06_iteration_cleanups, C06_worker_sequential, C06_run_lifecycle (+ C17_measured_interval): for every program the cleanups registered by a body run exactly once in reverse order after the body and the outcome record and before the worker's next body, whatever fails or panics; setup runs once and first, iterations only if it did not fail, its cleanups run once in reverse order in the teardown phase between the iterations and the return, and the run is failed iff setup or a setup cleanup failed. "
+         "The event log of the real code (per worker and per run, all ways of ending) is compared exactly with the model.",
+    note="Trusted: Coq kernel; Go's recover semantics as modelled (FailNow sentinel vs other panics); the run-level model abstracts the worker pool to one EIterations phase (the placement of real iterations relative to teardown is observed in whole runs by the harness, and the pool itself is C02-C05); extraction + driver; harness.",
+)
+
+META["C07"] = dict(
+    design_ref="DESIGN.md section 5, C07",
+    technique="Coq proofs by induction over action lists: recorded outcome = marks_failure(body) for any handle state and any body; independence of consecutive iterations; exact differential on one worker and oracle correspondence (extracted predicate) on whole runs in all trigger modes with per-id outcome plans",
+    text="Theorems C07_classification, C07_independent, C07_worker_outcomes: an iteration is recorded failed iff its body contains Fail/FailNow (Error, Fatal, failed assertion) or a panic with any value; the handle state left by earlier iterations never influences events or outcome of the next; the worker reports every iteration by its own outcome. Checked against the real code per iteration (exact) and per run (planned counts vs Result vs metrics).",
+    note="Trusted: Coq kernel; recover semantics; scenario contract (FailNow from the iteration goroutine); extraction + driver; harness.",
+)
+
+META["C20"] = dict(
+    design_ref="DESIGN.md section 5, C20",
+    technique="Coq proofs by induction over the component list (concatenation lemmas for executed prefixes); exact event-log differential of the real f1.CombineScenarios through ActiveScenario.Setup/Run, handle identity by pointer",
+    text="Theorems C20_all_in_order, C20_stop, C20_iteration: when no component stops all components' events appear once each in the given order (setup and every iteration); the first component that stops (FailNow/panic) ends that setup/iteration after its own prefix, later components do not run, and it is reported failed; the combined iteration's outcome is the disjunction of the components' classifications and each iteration starts from all components again.",
+    note="Trusted: Coq kernel; the model represents 'same handle' by threading one handle through the concatenated bodies (pointer identity is checked by the harness); extraction + driver; harness.",
+)
